@@ -395,7 +395,9 @@ def signature(obj):
     if obj.get("kind") == "refactor":
         tree = obj["tree"]
         op = _op_from_json(obj["op"])
-        return "refactor:" + obj["op"][0] + ":" + classify(tree, op, obj["module"])
+        base = "refactor:" + obj["op"][0] + ":" + classify(tree, op, obj["module"])
+        # the model must have predicted the failure for it to count as the known defect
+        return base + (":unpredicted" if obj.get("unpredicted") else "")
     if obj.get("kind") == "moveglobal":
         from harness import c05_global
         return c05_global.signature(obj)
@@ -474,7 +476,8 @@ CODES = {1: "rope's new text differs from the model's rewriting (or only one of 
          4: "CPython (after) differs from resolve_ref on rope's output",
          5: "harness resolver differs from resolve_ref on rope's output",
          6: "inside the theorem's domain, but a reference does not reach the moved object (model)",
-         7: "inside the theorem's domain, but CPython says a reference does not reach the moved object"}
+         7: "inside the theorem's domain, but CPython says a reference does not reach the moved object",
+         8: "inside the theorem's domain, but an import statement of the rewritten module is stale"}
 
 
 def run_refactor_stream(ctx, n_scen):
@@ -512,13 +515,17 @@ def run_refactor_stream(ctx, n_scen):
                         continue    # rope raised on the designated client; the other modules were never reached
                     verdict = oracle_verdict(op, pr["raised"], rel, pr)
                     sig = classify(tree, op, rel)
+                    term = None
+                    if m["imports"] or m["refs"]:
+                        term = rcase_term(wname, op, tree, rel, pr, "la_%d_%d_%d" % (si, oi, pi))
                     if verdict:
                         ctx.count("oracle_failures:" + sig)
-                        ctx.violation(replay_obj(tree, op, rel, lib_rels),
-                                      "C05 %s: %s" % (op[0], verdict))
+                        if term is None:
+                            # no model case for this module: the structural signature alone decides
+                            ctx.violation(replay_obj(tree, op, rel, lib_rels), "C05 %s: %s" % (op[0], verdict))
+                        # otherwise attribution waits for the model's verdict on rope's output (eval_rcases)
                     if not (m["imports"] or m["refs"]):
                         continue
-                    term = rcase_term(wname, op, tree, rel, pr, "la_%d_%d_%d" % (si, oi, pi))
                     if term is None:
                         if not verdict:
                             ctx.violation(dict(replay_obj(tree, op, rel, lib_rels),
@@ -533,7 +540,7 @@ def run_refactor_stream(ctx, n_scen):
                     for s in m["imports"]:
                         ctx.count("style:" + _style(s))
                     terms.append(term)
-                    meta.append((tree, op, rel, lib_rels, bool(verdict), sig))
+                    meta.append((tree, op, rel, lib_rels, verdict, sig))
                     if len(ctx.samples) < 3 and affected and is_client and not pr["raised"]:
                         ctx.sample({"op": _op_to_json(op), "module": rel,
                                     "before": pr["before_texts"][rel],
@@ -562,7 +569,8 @@ def eval_rcases(ctx, defs, terms, meta):
     for s in range(0, len(terms), shard):
         body = HEADER + "Definition cvariant : variant := %s.\n" % g_variant() + "\n".join(defs) + "\n"
         body += "Definition cases : list rcase := %s.\n" % g_list(terms[s:s + shard]).replace("; {|", ";\n {|")
-        body += "Eval vm_compute in (mismatches cases).\nEval vm_compute in (count_domain cases).\n"
+        body += ("Eval vm_compute in (mismatches cases).\nEval vm_compute in (predictions cases).\n"
+                 "Eval vm_compute in (count_domain cases).\n")
         bodies.append(body)
     outs = ctx.coq_files_parallel(bodies)
     indom = 0
@@ -570,15 +578,30 @@ def eval_rcases(ctx, defs, terms, meta):
         pairs = ctx.parse_pairs(out)
         nums = ctx.parse_nums(out)
         indom += nums[-1][0] if nums and nums[-1] else 0
-        for (i, code) in (pairs[0] if pairs else []):
-            tree, op, rel, lib_rels, oracle_failed, sig = meta[si * shard + i]
-            ctx.count("coq_mismatch_code_%d" % code)
-            if oracle_failed:
-                continue        # already reported (or matched a known finding) through the oracle
+        codes = dict(pairs[0] if pairs else [])
+        preds = nums[-2] if len(nums) >= 2 else []
+        for i in range(len(meta[si * shard:(si + 1) * shard])):
+            tree, op, rel, lib_rels, verdict, sig = meta[si * shard + i]
+            code = codes.get(i)
+            if code is not None:
+                ctx.count("coq_mismatch_code_%d" % code)
+            if verdict:
+                # a failure observed by CPython is attributed to a known finding only if rope's output is the
+                # model's (no code 1/2) and the spec predicts, from that output, that the module breaks
+                ro = replay_obj(tree, op, rel, lib_rels)
+                predicted = i < len(preds) and preds[i] == 1
+                if code in (1, 2) or not predicted:
+                    ro["unpredicted"] = True
+                    ro["mismatch"] = CODES.get(code) if code else "the spec does not predict a failure from rope's output"
+                    ctx.count("oracle_failures_not_predicted_by_model")
+                ctx.violation(ro, "C05 %s: %s" % (op[0], verdict))
+                continue
+            if code is None:
+                continue
             ro = replay_obj(tree, op, rel, set(tree["files"]))
             ro["mismatch"] = CODES.get(code, str(code))
             ro["broken"] = ("correspondence RopeVerif.C05.Runner.run_rcase code %d (%s); theorems C05_move_module_refs / "
-                            "C05_rename_module_refs / C05_to_package_refs no longer speak about the code" % (code, CODES.get(code)))
+                            "C05_rename_module_refs / C05_to_package_refs / C05_all_import no longer speak about the code" % (code, CODES.get(code)))
             ctx.violation(ro, "C05 %s %s: %s" % (op[0], rel, CODES.get(code, code)), no_input=True)
     ctx.extra["cases_in_theorem_domain"] = indom
 
@@ -594,6 +617,15 @@ def run(ctx):
     v = detect_variant()
     ctx.extra["variant_under_test"] = dict(v)
     ctx.count("variant:relctx=%s,rootfrom=%s" % (v["relctx"], v["rootfrom"]))
+    if not (v["relctx"] and v["rootfrom"]):
+        # the repaired behaviour (commits 9f7c670, 4ab2467) is the expected one: falling back to the as-found
+        # behaviour is a regression, reported here and by the corpus replays
+        ctx.violation({"kind": "variant", "variant": dict(v),
+                       "broken": "MoveModule behaves like the as-found variant again (relctx=%s, rootfrom=%s): the headline "
+                                 "theorems C05_move_module_refs_repaired / C05_move_to_root_refs_repaired no longer "
+                                 "speak about the code" % (v["relctx"], v["rootfrom"])},
+                      "C05: MoveModule no longer shows the repaired behaviour (relative from-imports / root destination)",
+                      no_input=True)
     from harness import c05_layout
     c05_layout.run(ctx)
     defs, terms, meta = run_refactor_stream(ctx, ctx.scale(18, 120))
